@@ -6,6 +6,7 @@ import (
 	"errors"
 	"io"
 	"net"
+	"os"
 	"sync"
 	"time"
 )
@@ -21,6 +22,7 @@ type QConn struct {
 	in           []byte
 	out          []byte
 	waiting      bool // server blocked in Read on empty input
+	timeout      bool // the next Read on empty input fails with a deadline error (once)
 	clientClosed bool
 	serverClosed bool
 	reads        int64
@@ -44,6 +46,12 @@ func (q *QConn) Read(p []byte) (int, error) {
 		}
 		if q.serverClosed {
 			return 0, net.ErrClosed
+		}
+		if q.timeout {
+			// The idle timeout is injected logically (FireReadTimeout), not by waiting for it.
+			q.timeout = false
+			q.waiting = false
+			return 0, os.ErrDeadlineExceeded
 		}
 		q.waiting = true
 		q.cond.Broadcast()
@@ -90,6 +98,17 @@ func (q *QConn) SetWriteDeadline(t time.Time) error { return nil }
 func (q *QConn) Send(b []byte) {
 	q.mu.Lock()
 	q.in = append(q.in, b...)
+	q.waiting = false
+	q.cond.Broadcast()
+	q.mu.Unlock()
+}
+
+// FireReadTimeout makes the session's pending (or next) Read on empty input fail with a
+// deadline-exceeded error, exactly as an expired read deadline on a TCP connection would: the
+// server's idle timeout, without waiting for it.
+func (q *QConn) FireReadTimeout() {
+	q.mu.Lock()
+	q.timeout = true
 	q.waiting = false
 	q.cond.Broadcast()
 	q.mu.Unlock()
